@@ -103,6 +103,15 @@ pub struct FuturesOrderedBounded<T: Future> {
 impl<T: Future> Unpin for FuturesOrderedBounded<T> {}
 
 impl<Fut: Future> FuturesOrderedBounded<Fut> {
+    /// Verification hook: set both position counters of an *empty* queue, so that the wrap-around
+    /// and re-basing paths are reachable without 2^63 operations.
+    #[cfg(futures_buffered_verif)]
+    pub fn verif_seed_positions(&mut self, start: usize) {
+        assert!(self.is_empty());
+        self.next_incoming_index = Wrapping(start);
+        self.next_outgoing_index = Wrapping(start);
+    }
+
     /// Constructs a new, empty `FuturesOrderedBounded`
     ///
     /// The returned `FuturesOrderedBounded` does not contain any futures and, in this
